@@ -95,7 +95,7 @@ func rowTemplate(cols []string, rows [][]*minisql.Node, constCols []string) (tem
 	// decide field types: Int when every row has a quoted integer in that column
 	types := make([]string, width)
 	for c := 0; c < width; c++ {
-		allInt, anyLit := true, false
+		allInt, anyLit, anyBool := true, false, false
 		for _, r := range rows {
 			if len(r) != width {
 				return "", nil, fmt.Errorf("ragged VALUES")
@@ -110,14 +110,18 @@ func rowTemplate(cols []string, rows [][]*minisql.Node, constCols []string) (tem
 				}
 			case n.Is("Expr.int"):
 				anyLit = true
+			case n.Is("Expr.bool"):
+				anyBool = true
 			case n.Is("Expr.cast") && n.Args[0].(*minisql.Node).Is("Expr.str"):
 				anyLit = true
 				allInt = false
 			default:
-				// DEFAULT, NULL, nextval(…), TRUE/FALSE: must be the same in every row
+				// DEFAULT, NULL, nextval(…): must be the same in every row
 			}
 		}
-		if anyLit {
+		if anyBool && !anyLit {
+			types[c] = "Bool" // TRUE/FALSE rendered from a Go bool field
+		} else if anyLit {
 			if allInt {
 				types[c] = "Int"
 			} else {
@@ -141,6 +145,8 @@ func rowTemplate(cols []string, rows [][]*minisql.Node, constCols []string) (tem
 				parts = append(parts, "(Expr.str r."+name+")")
 			case n.Is("Expr.int"):
 				parts = append(parts, "(Expr.int r."+name+")")
+			case n.Is("Expr.bool") && types[c] == "Bool":
+				parts = append(parts, "(Expr.bool r."+name+")")
 			case n.Is("Expr.cast") && n.Args[0].(*minisql.Node).Is("Expr.str"):
 				parts = append(parts, "(Expr.cast (Expr.str r."+name+") "+n.Args[1].(*minisql.Node).Lean()+")")
 			default:
@@ -430,13 +436,13 @@ func CaptureParametric() ([]*pResult, error) {
 				v1, v2 := ledger.NewVolumesInt64(0, 100), ledger.NewVolumesInt64(100, 0)
 				return s.InsertMoves(ctx,
 					&ledger.Move{TransactionID: 11, IsSource: true, Account: "acc:a", Amount: (*bigIntAlias)(big.NewInt(100)), Asset: "USD", InsertionDate: t2, EffectiveDate: t1, PostCommitVolumes: &v1},
-					&ledger.Move{TransactionID: 12, IsSource: true, Account: "acc:b", Amount: (*bigIntAlias)(big.NewInt(50)), Asset: "EUR", InsertionDate: t3, EffectiveDate: t2, PostCommitVolumes: &v2})
+					&ledger.Move{TransactionID: 12, IsSource: false, Account: "acc:b", Amount: (*bigIntAlias)(big.NewInt(50)), Asset: "EUR", InsertionDate: t3, EffectiveDate: t2, PostCommitVolumes: &v2})
 			},
 			Run2: func(ctx context.Context, s *ledgerstore.Store) error {
 				v := ledger.NewVolumesInt64(9, 8)
 				return s.InsertMoves(ctx,
 					&ledger.Move{TransactionID: 1, IsSource: true, Account: "p", Amount: (*bigIntAlias)(big.NewInt(1)), Asset: "X", InsertionDate: t1, EffectiveDate: t1, PostCommitVolumes: &v},
-					&ledger.Move{TransactionID: 2, IsSource: true, Account: "q", Amount: (*bigIntAlias)(big.NewInt(2)), Asset: "Y", InsertionDate: t2, EffectiveDate: t2, PostCommitVolumes: &v},
+					&ledger.Move{TransactionID: 2, IsSource: false, Account: "q", Amount: (*bigIntAlias)(big.NewInt(2)), Asset: "Y", InsertionDate: t2, EffectiveDate: t2, PostCommitVolumes: &v},
 					&ledger.Move{TransactionID: 3, IsSource: true, Account: "r", Amount: (*bigIntAlias)(big.NewInt(3)), Asset: "Z", InsertionDate: t3, EffectiveDate: t3, PostCommitVolumes: &v})
 			}},
 		{Name: "UpsertAccounts", RowType: "AccountRow", Doc: "UpsertAccounts(accounts…) with explicit dates",
